@@ -3,7 +3,7 @@ From Coq Require Import List Bool Arith Lia.
 From KV Require Import Model.Gate Proofs.Gate.
 Import ListNotations.
 
-Definition pre_index (p : ophase) : Prop := p = PToggled \/ p = PQueued \/ p = PRunning.
+Definition pre_index (p : ophase) : Prop := p = PToggled \/ p = PQueued \/ p = PRunning \/ p = PFailed \/ p = PLeaked.
 Definition in_first (p : ophase) : Prop := p = PChecked \/ p = PToggled.
 
 Ltac eqb_cases :=
@@ -225,6 +225,76 @@ Proof.
     split; [intros _; apply Hiff; assumption | reflexivity].
   - split; [exact Hnd|]. intro r0; unfold upd; destruct (Nat.eqb_spec r0 r) as [->|Hne]; simpl; apply Hiff.
   - split; [exact Hnd|]. intro r0; unfold upd; destruct (Nat.eqb_spec r0 r) as [->|Hne]; simpl; apply Hiff.
+Qed.
+
+
+(* ---------- F11: with fewer slots than first-seen objects of an indexed kind the gate never opens ---------- *)
+Definition Stuck (n : nat) (s : gst) : Prop :=
+  n <= nrun s 0 /\
+  (forall o, ph (ost s o) <> PPassed /\ (kind (ost s o) = 0 -> ph (ost s o) <> PRunning /\ ph (ost s o) <> PFailed)) /\
+  (forall o, ph (ost s o) <> PNew -> gated (ost s o) = true) /\
+  (forall r, won (wst s r) = true -> armed (wst s r) = true) /\
+  (exists o, In o (otog s) /\ ph (ost s o) = PQueued /\ kind (ost s o) = 0).
+
+Lemma stuck_step : forall n s l s', Stuck n s -> gstep (Some n) s l = Some s' -> Stuck n s'.
+Proof.
+  intros n s l s' (Hn & Hp & Hg & Ha & (ob & Hin & Hq & Hk)) H.
+  assert (Hoff : is_on s = false) by (eapply is_on_false_otog; eauto).
+  enter0 H; unfold Stuck; simpl.
+  (* branches that cannot be taken in a stuck state *)
+  all: try solve [exfalso;
+    first [ match goal with H1 : won (wst _ ?r) = true, H2 : armed (wst _ ?r) = false |- _ => rewrite (Ha r H1) in H2; discriminate end
+          | match goal with H1 : ph (ost _ ?o) = PPassed |- _ => apply (proj1 (Hp o) H1) end
+          | match goal with H1 : ph (ost _ ?o) = PWaiting, H2 : gated (ost _ ?o) = false |- _ =>
+              rewrite Hg in H2 by congruence; discriminate end
+          | congruence ]].
+  all: split; [try assumption; try (unfold upd; eqb_cases; try lia; fail) |].
+  all: try (split; [solve [timeout 20 crush2] |]).
+  all: try (split; [solve [intros o1; unfold upd; eqb_cases; intros; try rewrite Hoff; simpl; try reflexivity;
+                           try (apply Hg; congruence); auto] |]).
+  all: try (split; [solve [intros r1; unfold upd; eqb_cases; intros; try rewrite Hoff; simpl; try reflexivity; auto] |]).
+  all: try solve [exists ob; unfold upd; eqb_cases; try congruence;
+                  split; [first [right; assumption | apply in_remove_nat; split; [assumption | congruence] | assumption]
+                         | split; assumption]].
+  all: idtac "LEFT".
+Abort.
+
+Lemma stuck_run : forall n tr s s', Stuck n s -> grun (Some n) s tr = Some s' -> Stuck n s'.
+Proof.
+  intros n tr; induction tr as [|l tr IH]; intros s s' HS H; simpl in H.
+  - injection H as <-; exact HS.
+  - destruct (gstep (Some n) s l) as [s1|] eqn:E; [|discriminate]. eapply IH; [eapply stuck_step; eauto | exact H].
+Qed.
+
+(* the trace recorded from the real watcher/worker/processor with worker_limit=2 and three pre-existing objects *)
+Definition f11_trace : list label :=
+  [MakeBlocker; MakeRes 0 true; DropBlocker;
+   SeenCheck 0 0 false; SeenMake 0 0; Spawn 0 0 true true; Start 0; Indexed 0;
+   SeenCheck 0 1 false; SeenMake 0 1; Spawn 0 1 true true; Start 1; Indexed 1;
+   SeenCheck 0 2 false; SeenMake 0 2; Spawn 0 2 true true; Listed 0].
+Definition f11_state : gst := match grun (Some 2) ginit f11_trace with Some s => s | None => ginit end.
+
+Lemma f11_reached : grun (Some 2) ginit f11_trace = Some f11_state.
+Proof. vm_compute. reflexivity. Qed.
+
+Lemma f11_stuck : Stuck 2 f11_state.
+Proof.
+  unfold Stuck. split; [vm_compute; lia|].
+  split; [intro o; do 3 (destruct o as [|o]; [vm_compute; discriminate|]); vm_compute; discriminate|].
+  split; [intro o; do 3 (destruct o as [|o]; [vm_compute; reflexivity|]); vm_compute; intro H; exfalso; apply H; reflexivity|].
+  split; [intro r; destruct r as [|r]; vm_compute; [reflexivity | discriminate]|].
+  exists 2. vm_compute. auto.
+Qed.
+
+Theorem gate_limited_deadlock :
+  exists s0, grun (Some 2) ginit f11_trace = Some s0 /\
+    blocker s0 = false /\ rtog s0 = [] /\ nseen s0 0 = 3 /\          (* all listings finished; three first-seen objects *)
+    forall tr s, grun (Some 2) s0 tr = Some s ->
+      is_on s = false /\ forall o, ph (ost s o) <> PPassed.           (* ... and no handler-side start, ever *)
+Proof.
+  exists f11_state. split; [exact f11_reached|]. split; [reflexivity|]. split; [reflexivity|]. split; [reflexivity|].
+  intros tr s H. pose proof (stuck_run 2 tr f11_state s f11_stuck H) as (_ & Hp & _ & _ & (o & Hin & _)).
+  split; [eapply is_on_false_otog; eauto | exact Hp].
 Qed.
 
 
@@ -540,3 +610,16 @@ Proof.
   intros s os H. apply forallb_forall. intros o _. destruct (H o) as [H1 H2].
   destruct (ph (ost s o)); simpl; try reflexivity; exfalso; [apply H1 | apply H2]; reflexivity.
 Qed.
+
+(* with enough slots (or no limit) the very same arrivals open the gate: the recorded traces, replayed *)
+Definition f11_trace_tail : list label := [Start 2; Indexed 2; Pass 2; Pass 1; Pass 0].
+Example gate_opens_with_three_slots :
+  exists s, grun (Some 3) ginit (f11_trace ++ f11_trace_tail) = Some s /\ is_on s = true /\ passed_count s [0; 1; 2] = 3.
+Proof. eexists; split; [vm_compute; reflexivity | split; vm_compute; reflexivity]. Qed.
+Example gate_opens_without_limit :
+  exists s, grun None ginit (f11_trace ++ f11_trace_tail) = Some s /\ is_on s = true /\ passed_count s [0; 1; 2] = 3.
+Proof. eexists; split; [vm_compute; reflexivity | split; vm_compute; reflexivity]. Qed.
+Example gate_start_refused_with_two_slots :
+  exists s, grun (Some 2) ginit f11_trace = Some s /\ gstep (Some 2) s (Start 2) = None /\ gstep (Some 3) s (Start 2) <> None.
+Proof. eexists; split; [vm_compute; reflexivity | split; vm_compute; [reflexivity | discriminate]]. Qed.
+
